@@ -109,12 +109,38 @@ class Harness:
         if how == "gen":
             from experimaestro import RunMode
 
-            with experiment(self.env(), xp_name, launcher=self.launcher, port=-1, run_mode=RunMode.GENERATE_ONLY):
-                for n in sorted(jobs):
-                    self.W(n=int(n)).tag("n", n).submit()
+            central = None
+            try:
+                with experiment(self.env(), xp_name, launcher=self.launcher, port=-1, run_mode=RunMode.GENERATE_ONLY) as xp:
+                    central = xp.central
+                    for n in sorted(jobs):
+                        self.W(n=int(n)).tag("n", n).submit()
+            finally:
+                self.reap(central)
             return
         xp = experiment(self.env(), xp_name, launcher=self.launcher, port=-1)
         xp.__enter__()
+        central = xp.central
+        try:
+            self._run(xp, jobs, how, sbase)
+        finally:
+            self.reap(central)
+
+    @staticmethod
+    def reap(central):
+        """experiment.__exit__ calls loop.stop() from the main thread: the flag is set but the loop thread sleeps in its selector
+        and never sees it -- one parked daemon thread per experiment, harmless for a program that runs one experiment, fatal for
+        a harness process that runs thousands (RuntimeError: can't start new thread). Wake the loop so that run_forever returns"""
+        if central is None or not hasattr(central, "loop"):
+            return
+        try:
+            central.loop.call_soon_threadsafe(central.loop.stop)
+        except RuntimeError:
+            pass
+        if hasattr(central, "join"):
+            central.join(5)
+
+    def _run(self, xp, jobs, how, sbase):
         try:
             tasks = []
             for n in sorted(jobs):
@@ -245,7 +271,10 @@ def replay(beh, fails=("3",)):
                 elif a == "running":
                     h.mark_running(ev["job"])
             except Exception as e:
-                return {"step": k, "action": {x: ev[x] for x in ev if x != "st"}, "what": f"exception {e!r}"[:300]}
+                d = {"step": k, "action": {x: ev[x] for x in ev if x != "st"}, "what": f"exception {e!r}"[:300]}
+                if resource_exhausted(e):
+                    d["machinery"] = True        # the harness process ran out of a resource: nothing is known about the code
+                return d
             got = h.snapshot(xps)
             want = norm(ev["st"])
             if got != want:
@@ -254,3 +283,22 @@ def replay(beh, fails=("3",)):
         return None
     finally:
         h.close()
+
+
+def reap_central(central):
+    """see Harness.reap: wake the loop thread that experiment.__exit__ leaves parked in its selector"""
+    if central is None or not hasattr(central, "loop"):
+        return
+    try:
+        central.loop.call_soon_threadsafe(central.loop.stop)
+    except RuntimeError:
+        pass
+    if hasattr(central, "join"):
+        central.join(5)
+
+
+def resource_exhausted(e):
+    import errno
+
+    return isinstance(e, MemoryError) or "can't start new thread" in str(e) or \
+        (isinstance(e, OSError) and e.errno in (errno.EMFILE, errno.ENFILE, errno.ENOSPC, errno.ENOMEM, errno.EAGAIN))
